@@ -896,7 +896,7 @@ def generate(ctx):
     for _ in range(ctx.n(70, 1200)):
         k = rng.choice([2, 2, 3])
         ranks = [rng.choice([2, 2, 1]) for _ in range(k)]
-        if rng.random() < 0.7:
+        if rng.random() < 0.5:
             ranks[0] = ranks[-1] = 2 if rng.random() < 0.8 else 1
         two_d = 2 in ranks
         args, maxd = [], [0, 0]
